@@ -98,6 +98,7 @@ def traced_source():
     s += func("f_pos_star", "a, /, b=2, *rest, **extra")
     s += func("f_kwonly", "*, a, z=None")
     s += func("f_wrapped", "a, b=1", deco="S_deco")
+    s += func("trace_types", "a, b=None")      # an ordinary user function that happens to be called like this
     s += func("g_mod", "a, b=0", kind="gen")
     s += func("c_mod", "a", kind="coro")
     s += func("ag_mod", "a, b=0", kind="agen")
@@ -143,6 +144,7 @@ TARGETS = {
         dict(name="f_pos_star", maker="lambda: M.f_pos_star", sig="M.f_pos_star", selfargs="[]", extra_pos=3, extra_kw=["zz", "yy"]),
         dict(name="f_kwonly", maker="lambda: M.f_kwonly", sig="M.f_kwonly", selfargs="[]", kwonly="a"),
         dict(name="f_wrapped", maker="lambda: M.f_wrapped", sig="M.f_wrapped.__wrapped__", selfargs="[]"),
+        dict(name="trace_types", maker="lambda: M.trace_types", sig="M.trace_types", selfargs="[]"),
         dict(name="Kls.m_inst", maker="lambda: OBJ.m_inst", sig="M.Kls.m_inst", selfargs="[OBJ]"),
         dict(name="Kls.m_inst(inherited)", maker="lambda: SUB.m_inst", sig="M.Kls.m_inst", selfargs="[SUB]"),
         dict(name="Sub.m_over", maker="lambda: SUB.m_over", sig="M.Sub.m_over", selfargs="[SUB]"),
